@@ -22,7 +22,7 @@ Theorem type_of_children_multiplicity_irrelevant : forall a l,
 Proof. exact type_of_children_dup. Qed.
 Print Assumptions type_of_children_multiplicity_irrelevant.
 
-(** Concurrent(*children) has the class Concurrent[tuple(type(c) for c in children)] *)
+(** Concurrent(c1, c2, ..) has the class Concurrent[tuple(type(c) for c in children)] *)
 Theorem new_is_getitem : forall l, type_of (Node l) = new_type l.
 Proof. exact type_of_is_getitem. Qed.
 Print Assumptions new_is_getitem.
@@ -132,8 +132,7 @@ Theorem spec_order_irrelevant : forall sub, (forall a, sub a a = true) ->
 Proof. exact spec_set_only. Qed.
 Print Assumptions spec_order_irrelevant.
 
-Theorem identical_classes_indistinguishable : forall sub, (forall a, sub a a = true) ->
-  forall c c' h h', same c c' = true -> same h h' = true -> issub sub c h = issub sub c' h'.
+Theorem identical_classes_indistinguishable : forall sub c c' h h', same c c' = true -> same h h' = true -> issub sub c h = issub sub c' h'.
 Proof. exact issub_same. Qed.
 Print Assumptions identical_classes_indistinguishable.
 
